@@ -7,7 +7,7 @@ package wal
 import (
 	"context"
 	"fmt"
-	"io"
+	"io/ioutil"
 	"strings"
 	"time"
 
@@ -269,20 +269,13 @@ func (w *WAL) read(ctx context.Context, token string, channels *walChannels) {
 		channels.oops <- err
 		return
 	}
-	b := make([]byte, 1024)
-	for {
-		l, e := r.Read(b)
-		if e == io.EOF {
-			b = b[:l]
-			break
-		}
-	}
-	entry, err := model.UnmarshalWAL(b)
+	// Add stores the payload as is, under the token
+	b, err := ioutil.ReadAll(r)
 	if err != nil {
 		channels.oops <- fmt.Errorf("token: %s, err: %s", token, err)
 		return
 	}
-	channels.entry <- entry
+	channels.entry <- model.NewEntry(token, string(b))
 }
 
 func (w *WAL) collectParallelResponses(ctx context.Context, channels *walChannels) {
